@@ -4,6 +4,7 @@ C16 — property theorems for the model of bign96.c (Bign96.lean) under the hypo
 bign96Verify.  `leNat` is the number of a little-endian octet string.
 -/
 import Bee2V.C16.LemmasSig2
+import Bee2V.C16.ToySig
 namespace Bee2V.C16
 open Sig
 variable {G : Type} [AddCommGroup G] {C : B96 G}
@@ -226,5 +227,57 @@ theorem b96_verify_rejects_pub (C : B96 G) {oid Hb sig pub : Bytes} (ho : C.oidO
     (hp : C.loadPub pub = none) : C.verify oid Hb sig pub = .badPubkey := by
   unfold B96.verify
   simp only [ho, Bool.not_true, Bool.false_eq_true, if_false, hp]
+
+/-! ### non-vacuity: the hypotheses of the theorems above are satisfiable together (ToySig.lean:
+`toyB96` over (ZMod Q96, +), Q96 = 13·2^188 + 1; private key 5, the hash value 2^192 - 1 ≥ q, a tape whose
+first two draws (0 and 2^192 - 1) are rejected and whose third draw is 7) -/
+section examples
+open ToySig
+set_option maxRecDepth 8000
+
+example : ∃ C : B96 (ZMod Q96), B96Laws C := ⟨toyB96, toyB96Laws⟩
+
+example := b96_pubkeyCalc_valid toyB96Laws (priv := priv5) (by decide) (by decide)
+
+example : toyB96.keypairGen tape7 = (.ok, natLE 24 7 ++ natLE 24 7 ++ natLE 24 7, 72) := by decide
+
+example := b96_keygen_valid toyB96Laws (tape := tape7) (kp := natLE 24 7 ++ natLE 24 7 ++ natLE 24 7)
+  (used := 72) (by decide)
+
+example := b96_keypairVal_exact toyB96Laws (priv := priv5) (pub := natLE 24 5 ++ natLE 24 5) (by decide)
+
+example : randNZMod toyB96.q tape7 = (some 7, [], 72) := by decide
+
+example := b96_sign_ok toyB96Laws (oid := [1]) (Hb := hFF) (priv := priv5) (tape := tape7) (k := 7)
+  (by decide) (by decide) (by decide) (by decide)
+
+/-- a run that really signs (after two rejected draws) and verifies -/
+example : ∃ sig pub, toyB96.sign [1] hFF priv5 tape7 = (.ok, sig, 72) ∧ sig.length = 34 ∧
+    toyB96.pubkeyCalc priv5 = (.ok, pub) ∧ toyB96.verify [1] hFF sig pub = .ok := by
+  obtain ⟨sig, hs, hl⟩ := b96_sign_ok toyB96Laws (oid := [1]) (Hb := hFF) (priv := priv5)
+    (tape := tape7) (k := 7) (by decide) (by decide) (by decide) (by decide)
+  obtain ⟨pub, hp, _⟩ := b96_pubkeyCalc_valid toyB96Laws (priv := priv5) (by decide) (by decide)
+  exact ⟨sig, pub, hs, hl, hp, b96_sign_complete toyB96Laws (by decide) hs hp⟩
+
+/-- bign96Sign2 with H = 0 (the first iterate of the toy block cipher is 1): signs and verifies -/
+example : ∃ sig pub, toyB96.sign2 3 [1] (zeros 24) priv5 none = some (.ok, sig) ∧
+    toyB96.pubkeyCalc priv5 = (.ok, pub) ∧ toyB96.verify [1] (zeros 24) sig pub = .ok := by
+  obtain ⟨pub, hp, _⟩ := b96_pubkeyCalc_valid toyB96Laws (priv := priv5) (by decide) (by decide)
+  have hs : toyB96.sign2 3 [1] (zeros 24) priv5 none = some (.ok,
+      [38, 31, 0, 0, 0, 0, 0, 0, 0, 0, 68, 100, 255, 255, 255, 255, 255, 255, 255, 255, 255, 255, 127,
+       253, 255, 255, 255, 255, 255, 255, 255, 255, 255, 207]) := by decide
+  exact ⟨_, pub, hs, hp, b96_sign2_complete toyB96Laws (by decide) hs hp⟩
+
+example := b96_verify_exact toyB96Laws (oid := [1]) (Hb := hFF) (sig := zeros 34) (pub := zeros 48)
+  (by decide)
+
+example := b96_verify_rejects_s1 toyB96 (oid := [1]) (Hb := hFF)
+  (sig := zeros 10 ++ List.replicate 24 255) (pub := natLE 24 5 ++ natLE 24 5)
+  (by decide) (by decide) (by decide)
+
+example := b96_verify_rejects_pub toyB96 (oid := [1]) (Hb := hFF) (sig := zeros 34) (pub := zeros 48)
+  (by decide) (by decide)
+
+end examples
 
 end Bee2V.C16
